@@ -759,6 +759,8 @@ def _components_cases(ctx, reqs, pend):
                                       **{k: v for k, v in kw.items() if k != 'spatial_shape'})
                     if st_v != 'ok' or not np.array_equal(vol.affine, A):
                         ctx.fail(dict(case, fn='Volume.from_components'), f'{st_v}', site='from_components')
+                    if g.handedness.value != ('RIGHT_HANDED' if np.linalg.det(A[:3, :3]) > 0 else 'LEFT_HANDED'):
+                        ctx.fail(dict(case, fn='VolumeGeometry.handedness'), {'got': g.handedness.value, 'det': float(np.linalg.det(A[:3, :3]))}, site='accessors')
                     if np.abs(np.array(g.spacing) - s3).max() > 1e-9 or np.abs(g.direction - D).max() > 1e-9:
                         ctx.fail(dict(case, fn='VolumeGeometry.spacing/direction'), {'spacing': g.spacing}, site='accessors')
                     if use_center and np.abs(np.array(g.center_position) - np.array(pos)).max() > 1e-9 * (1 + np.abs(np.array(pos)).max()):
